@@ -22,6 +22,7 @@ def value_alphabet():
     """(symbol class, field type, value)"""
     dt = datetime.datetime
     return [
+        ('decimal-long', 'number', D('3.141592653589793238462643383279502884197')),
         ('decimal', 'number', D('1.10')), ('decimal', 'number', D('1E+3')), ('decimal', 'number', D('-0.5')),
         ('float', 'number', 1e308), ('float', 'number', 5e-324), ('float', 'number', -0.0), ('int', 'integer', 2 ** 70),
         ('date', 'date', datetime.date(1, 1, 1)), ('date', 'date', datetime.date(999, 12, 31)), ('date', 'date', datetime.date(2020, 2, 29)),
@@ -252,6 +253,12 @@ def explore_histories(depth):
                         out['viol'].append(('history-differs/%d%d' % (has1, has2), 'history [%s]: the run does not return what the '
                                             'sources of version %d give (the version its nearest checkpoint was computed from, or '
                                             'the current one without a checkpoint)' % (label, eff), {'part': 'history', 'hist': hist + [op]}))
+                    if not (os.path.exists(os.path.join(root, 'c1', 'stream.ndjson')) or has2) or \
+                            not os.path.exists(os.path.join(root, 'c2', 'stream.ndjson')):
+                        # a completed run saves every checkpoint it computed (c1 is computed unless c2 already existed)
+                        out['viol'].append(('run-did-not-save/%d%d' % (has1, has2), 'history [%s]: the run completed but did not leave its '
+                                            'checkpoints behind: %r' % (label, sorted(os.listdir(root)) if os.path.exists(root) else None),
+                                            {'part': 'history', 'hist': hist + [op]}))
                     out['outcomes']['run:c1=%d,c2=%d' % (has1, has2)] = out['outcomes'].get('run:c1=%d,c2=%d' % (has1, has2), 0) + 1
                 elif op.startswith('failing-run'):
                     # a run that breaks while rows are flowing must not leave anything a later run would resume from:
